@@ -335,6 +335,24 @@ pub fn build(c: &FCase, openq: &Quirks) -> Built {
                 emit(&mut rn, &mut code, Insn::new("mov", vec![Opd::Lab(W::W, LBL.to_string()), Opd::Imm(b.vals[0], ImmKind::SW)]));
             }
         }
+        // a second DS between the pre-store and the tested instruction, loaded through the stack or from memory: whatever
+        // was derived from the old DS (a resolved label address, say) must not survive it
+        if (insn.label_operand().is_some() || insn.mem_operand().is_some()) && !strings && b.vals[6] & 0x0C == 0x04 {
+            let ds2 = b.segs[1] ^ 0x0101;
+            emit(&mut rn, &mut code, mov16(R16::AX, ds2));
+            if b.vals[6] & 0x10 == 0 {
+                emit(&mut rn, &mut code, Insn::new("push", vec![Opd::R16(R16::AX)]));
+                emit(&mut rn, &mut code, Insn::new("pop", vec![Opd::Sr(Seg::DS)]));
+            } else {
+                // through a word in the stack segment
+                emit(&mut rn, &mut code, Insn::new("push", vec![Opd::R16(R16::AX)]));
+                emit(&mut rn, &mut code, Insn::new("pop", vec![Opd::R16(R16::AX)]));
+                emit(&mut rn, &mut code, Insn::new("mov", vec![Opd::Mem(W::W, Mem { seg: Some(Seg::SS), shape: Shape::Direct(0x0010) }), Opd::R16(R16::AX)]));
+                emit(&mut rn, &mut code, Insn::new("mov", vec![Opd::Sr(Seg::DS), Opd::Mem(W::W, Mem { seg: Some(Seg::SS), shape: Shape::Direct(0x0010) })]));
+            }
+            emit(&mut rn, &mut code, mov16(R16::AX, r[0]));
+            classes.push("l3/ds-changed-between-two-uses-of-an-operand".into());
+        }
         if insn.mn == "xlat" {
             // the table cell XLAT reads
             let off = r[1].wrapping_add(r[0] & 0xFF);
